@@ -25,7 +25,6 @@ import (
 
 func init() {
 	os.Setenv("QUEUE_ACTIONS_METRICS", "no")
-	log.SetDefault(log.NewNop())
 }
 
 type c07kind struct {
